@@ -112,6 +112,8 @@ pub fn sweep(
             json!({"family": name, "case_index": n - 1, "case": describe(n - 1)}),
         ],
         found: out,
+        reached: Vec::new(),
+        not_reached: Vec::new(),
         wall_s: t0.elapsed().as_secs_f64(),
     }
 }
